@@ -19,6 +19,7 @@ pub use vmodel::Val;
 pub mod bridge;
 pub mod fileops;
 pub mod ops;
+pub mod probe;
 pub mod convs {
     pub fn conv_u32_to_string(x: u32) -> String {
         x.to_string()
